@@ -333,11 +333,13 @@ def helper_contracts(ck, rule='HELPER-contract'):
             if '/tests/' not in key[0]:
                 uncovered.append(key)
             continue
+    contracted = []
     expected_not_reached = sorted('{}::{}'.format(*k) for k in CONTRACTS if ck.prop in SERVES.get(k, {}) and k not in reach)
     for key in sorted(k for k in CONTRACTS if k in reach and ck.prop in SERVES.get(k, {})):
         rel, qual = key
         module = ck.index.mod(rel)
         fn = ck.need(module.functions.get(qual), 'helper {}::{} vanished'.format(rel, qual))
+        contracted.append((module, fn))
         try:
             f = _callable(ck, rel, qual)
         except interp.Unsupported as err:
@@ -377,6 +379,9 @@ def helper_contracts(ck, rule='HELPER-contract'):
     # tables of names that the reached code looks things up in (PROTEIN_RESIDUES, ..): no two literals fused by a missing comma
     from . import shared
     shared.no_fused_strings(ck, sorted({rel for rel, _q in reach if '/tests/' not in rel}))
+    # a contracted helper counts as read from here on (it is a target of the robustness fuzzers like any function a rule reads)
+    for module_, fn_ in contracted:
+        ck.analysed(module_, fn_)
     ck.extra['closure'] = {'functions_read': len(read), 'reachable_within_5_calls': len(reach - read),
                            'helpers_with_contract': sorted('{}::{} ({})'.format(k[0], k[1], SERVES[k][ck.prop]) for k in CONTRACTS if k in reach and ck.prop in SERVES.get(k, {})),
                            'helpers_triaged_but_not_reached_on_this_tree': expected_not_reached,
